@@ -9,6 +9,8 @@ PKGS = {
             "wire.go": HDR % "ok1" + "func InitA() A {\n\tpanic(wire.Build(NewA))\n}\n"},
     "ok2": {"p.go": "package ok2\n\ntype A struct{ N int }\ntype B struct{ A A }\n\nfunc NewA() (A, func(), error) { return A{N: 1}, func() {}, nil }\nfunc NewB(a A) B { return B{A: a} }\n",
             "wire.go": HDR % "ok2" + "func InitA() (A, func(), error) {\n\tpanic(wire.Build(NewA))\n}\n\nfunc InitB() (B, func(), error) {\n\tpanic(wire.Build(NewA, NewB))\n}\n"},
+    "ok3": {"p.go": "package ok3\n\ntype Z struct{ N int }\n\nfunc NewZ() Z { return Z{N: 3} }\n",
+            "wire.go": HDR % "ok3" + "func InitZ() Z {\n\tpanic(wire.Build(NewZ))\n}\n"},
     "bad": {"p.go": "package bad\n\ntype A struct{ N int }\ntype B struct{ A A }\n\nfunc NewB(a A) B { return B{A: a} }\n",
             "wire.go": HDR % "bad" + "func InitB() B {\n\tpanic(wire.Build(NewB))\n}\n"},
     "noinj": {"p.go": "package noinj\n\ntype A struct{ N int }\n\nfunc NewA() A { return A{N: 1} }\n"},
@@ -52,6 +54,9 @@ VARIANTS = {
         "wire.go": HDR % "h" + "func InitB() B {\n\tpanic(wire.Build(NewB))\n}\n"},
     4: {"p.go": "package h\n\ntype A struct{ N int }\ntype B struct{ A A }\n\nfunc NewA() A { return A{N: 1} }\nfunc NewB(a A) B { return B{A: a} }\n",
         "wire.go": HDR % "h" + "func InitA() A {\n\tpanic(wire.Build(NewA))\n}\n"},
+    # ten values in one injector: the order of the value variables is part of the file
+    5: {"p.go": "package h\n\n" + "".join("type V%d int\n" % i for i in range(10)) + "\ntype All struct {\n" + "".join("\tF%d V%d\n" % (i, i) for i in range(10)) + "}\n",
+        "wire.go": HDR % "h" + "func InitAll() All {\n\tpanic(wire.Build(wire.Struct(new(All), \"*\"), " + ", ".join("wire.Value(V%d(%d))" % (i, i) for i in (3, 7, 1, 9, 0, 5, 2, 8, 4, 6)) + "))\n}\n"},
 }
 TAGSETS = [(), ("-tags=dev",), ("-tags=dev qa",)]
 GARBAGE = "//go:build !wireinject\n// +build !wireinject\n\nthis is not go at all {{{\n" + "\n".join("// filler line %d" % i for i in range(80)) + "\n"
@@ -127,9 +132,9 @@ def eng_cli(pid, tier, wd, known, replay=None):
     kf = {k["key"]: k for k in known if k.get("status") == "finding"}
     stats = {"invocations": 0, "history_steps": 0, "mismatches": 0}
     coq_cases, coq_obs, descs = [], [], []
-    names = ["ok1", "ok2", "bad", "noinj", "needs", "tonly"]
+    names = ["ok1", "ok2", "bad", "noinj", "needs", "tonly", "ok3"]
     # what the sources say, independently of the tool: does the package analyse cleanly?
-    clean = {"ok1": True, "ok2": True, "bad": False, "noinj": True, "needs": False, "tonly": True}
+    clean = {"ok1": True, "ok2": True, "bad": False, "noinj": True, "needs": False, "tonly": True, "ok3": True}
     optsets = [(), ("-output_file_prefix=zz_",), ("-header_file=HDR",), ("-tags=foo",)]
     ref = {}
     for o in optsets:
@@ -230,6 +235,12 @@ def eng_cli(pid, tier, wd, known, replay=None):
             cases.append((cmd, ["ok2"], o, {"ok2": "equal"}))
             cases.append((cmd, ["noinj"], o, {"noinj": "absent"}))
             cases.append((cmd, ["ok1", "noinj", "bad"], o, {"ok1": "absent", "noinj": "absent", "bad": "absent"}))
+    # several small packages written in one invocation, with and without a (short) header
+    for o in ((), ("-header_file=HDR",)):
+        cases.append(("gen", ["ok1", "ok3"], o, {"ok1": "absent", "ok3": "absent"}))
+        cases.append(("gen", ["ok3", "noinj", "ok1", "ok2"], o, {"ok1": "stale", "ok3": "absent", "ok2": "equal"}))
+        cases.append(("diff", ["ok1", "ok3"], o, {"ok1": "equal", "ok3": "equal"}))
+        cases.append(("diff", ["ok3", "ok1"], o, {"ok1": "equal", "ok3": "equal"}))
     # mixed priors: stale + failing in one invocation (status priority), equal + stale
     cases.append(("diff", ["bad", "ok1"], (), {"ok1": "stale"}))
     cases.append(("diff", ["ok1", "bad"], (), {"ok1": "absent"}))
@@ -306,6 +317,7 @@ def eng_cli(pid, tier, wd, known, replay=None):
                   [("switch", 4), ("gen",), ("switch", 2), ("gen",), ("diff",)],          # outputs differing only in letter case
                   [("replace", "garbage"), ("switch", 4), ("gen",), ("diff",), ("gen",), ("diff",)],
                   [("switch", 1), ("gen",), ("switch", 3), ("gen",), ("diff",), ("switch", 4), ("gen",), ("diff",)]]
+        picked.append([("switch", 5), ("gen",), ("gen",), ("diff",), ("switch", 1), ("gen",), ("switch", 5), ("gen",), ("diff",)])     # ten value variables
         hists += [(h, ()) for h in picked] + [(picked[0], TAGSETS[2]), (picked[2], TAGSETS[2]), (picked[3], TAGSETS[1])]
         hists.append(([("gen",), ("gen",), ("diff",), ("switch", 4), ("gen",), ("gen",), ("diff",)], TAGSETS[2]))   # regenerate next to a tagged output
         rep = {"stale": STALE % "h", "garbage": GARBAGE, "noncomp": NONCOMP % "h"}
